@@ -15,12 +15,13 @@ import Ptx.Drv.Tab
 import Ptx.Drv.Tree
 import Ptx.Drv.Render
 import Ptx.Drv.Sat
+import Ptx.Drv.Search
 open Ptx Ptx.Wire
 
 def handlers : List (List String → Option String) :=
   [Drv.Cont.handle, Drv.Parse.handle, Drv.Lex.handle, Drv.Life.handle, Drv.Branch.handle,
    Drv.Logic.handle, Drv.Model.handle, Drv.Tab.handle,
-   Drv.Tree.handle, Drv.Render.handle, Drv.Sat.handle]
+   Drv.Tree.handle, Drv.Render.handle, Drv.Sat.handle, Drv.Search.handle]
 
 def handle (line : String) : String :=
   let ts := toks line
